@@ -54,6 +54,19 @@ CHECKS = {
         note='Contents of internal/ are not compared; permission faults need workers that drop privileges (root ignores '
              'permission bits); D8 was found by this check and repaired (fix: 09e13fb).',
         design='5/C04'),
+    'C13': dict(
+        engine='spec/LineFilter.tla, spec/LineFilterExport.tla',
+        technique='TLC model checking of the interval mechanism as coded against the per-line reference for every '
+                  'expression built by a stack machine + replay of every enumerated expression / range list through '
+                  'the real CLI',
+        text='TLC checks IntervalSound, InversionSound and FilterExact for every line-matcher expression up to a token '
+             'bound (both levels, six operators, operands around the text bounds) on a model of the two interval '
+             'visitors, the adaption to line numbers and interval-limited reading; every expression and every range '
+             'list TLC enumerates (plus deep random ones from -simulate) is rendered in the DSL and run on texts of 0, 1 '
+             'and N lines, and the kept lines are compared with the reference.',
+        note='Bounded expression size / operand values; the mechanism model mirrors the code after the repair of D1 (the '
+             'old mechanism is kept as deviation D1 and TLC must find its counterexample in every run).',
+        design='5/C13'),
 }
 
 NOT_YET = 'check not built yet (planned in DESIGN.md section 5); no claim is made'
